@@ -202,6 +202,8 @@ class Inliner:
         self.current = ""
         self.log: List[Tuple[str, str]] = []
         self.skipped: List[Tuple[str, str, str]] = []
+        self.imports: Dict[str, Dict[str, Tuple[str, str]]] = {}      # module -> local name -> (source module, name)
+        self.toplevel: Dict[str, Set[str]] = {}                        # module -> names bound at module level
 
     # -- resolution of a call to a helper
     def _callee(self, call: ast.Call, module: str, cls: Optional[str]) -> Tuple[Optional[Helper], Optional[ast.AST]]:
@@ -212,6 +214,12 @@ class Inliner:
                     return h, None
             for h in self.by_name.get(f.id, []):
                 if h.cls is None and h.scope is None and h.qual.split(".")[0] == module:
+                    return h, None
+            src = self.imports.get(module, {}).get(f.id)
+            if src is not None:
+                # `from .other import helper`: analysable here when every global the helper reads means the same thing in this module
+                h = self.helpers.get(f"{src[0]}.{src[1]}")
+                if h is not None and h.cls is None and h.scope is None and _free_globals(h.node) <= self.toplevel.get(module, set()):
                     return h, None
             return None, None
         if isinstance(f, ast.Attribute):
@@ -557,6 +565,23 @@ def inline_new_helpers(trees: Dict[str, ast.Module], baseline: Optional[Set[str]
     if not helpers:
         return [], []
     inl = Inliner(helpers, by_name)
+    for mname, tree in trees.items():
+        imp, top = {}, set()
+        for st in tree.body:
+            if isinstance(st, ast.ImportFrom) and st.level == 1 and st.module:
+                for a in st.names:
+                    imp[a.asname or a.name] = (st.module, a.name)
+                    top.add(a.asname or a.name)
+            elif isinstance(st, (ast.Import, ast.ImportFrom)):
+                for a in st.names:
+                    top.add((a.asname or a.name).split(".")[0])
+            elif isinstance(st, (ast.FunctionDef, ast.ClassDef)):
+                top.add(st.name)
+            elif isinstance(st, ast.Assign):
+                for t in st.targets:
+                    if isinstance(t, ast.Name):
+                        top.add(t.id)
+        inl.imports[mname], inl.toplevel[mname] = imp, top
     for _round in range(MAX_ROUNDS):
         n = 0
         for mname, cname, node, qual in funcs:
@@ -569,6 +594,25 @@ def inline_new_helpers(trees: Dict[str, ast.Module], baseline: Optional[Set[str]
             renumber(node)
     skipped = inl.skipped + [("-", h.qual, h.reason) for h in helpers.values() if h.reason]
     return inl.log, skipped
+
+
+def _free_globals(fn: ast.FunctionDef) -> Set[str]:
+    """Names a function reads that are neither its parameters / locals nor builtins."""
+    import builtins
+    bound = {a.arg for a in fn.args.args + fn.args.kwonlyargs + fn.args.posonlyargs}
+    if fn.args.vararg:
+        bound.add(fn.args.vararg.arg)
+    if fn.args.kwarg:
+        bound.add(fn.args.kwarg.arg)
+    loads = set()
+    for n in ast.walk(fn):
+        if isinstance(n, ast.Name):
+            (loads if isinstance(n.ctx, ast.Load) else bound).add(n.id)
+        elif isinstance(n, ast.ExceptHandler) and n.name:
+            bound.add(n.name)
+        elif isinstance(n, (ast.FunctionDef, ast.ClassDef)) and n is not fn:
+            bound.add(n.name)
+    return {x for x in loads - bound if not hasattr(builtins, x)}
 
 
 def renumber(fn: ast.FunctionDef):
